@@ -13,6 +13,20 @@ use serde::{Deserialize, Serialize};
 use serde_json::Value;
 use std::collections::BTreeMap;
 
+/// Signatures carry no ':' (the driver shrinks within the text before the first ':'; with a
+/// colon-free signature a failure can only shrink to a case with exactly the same signature, so an
+/// unknown failure can never be minimised into a tolerated known one). Panics keep their form.
+fn vfail(sig: impl Into<String>, detail: impl Into<String>) -> Verdict {
+    Verdict::fail(nsig(&sig.into()), detail)
+}
+fn nsig(s: &str) -> String {
+    if s.starts_with("panic:") {
+        s.to_string()
+    } else {
+        s.trim_end_matches(':').replace(':', "/")
+    }
+}
+
 pub const C44_PL: &str = include_str!("../../prolog/c44.pl");
 
 #[derive(Clone, Debug, Serialize, Deserialize)]
@@ -362,7 +376,8 @@ struct Tol {
 impl Tol {
     /// returns Some(verdict) when the failure must be reported now
     fn fail(&mut self, sig: String, detail: String) -> Option<Verdict> {
-        let v = Verdict::fail(sig.clone(), detail);
+        let sig = nsig(&sig);
+        let v = vfail(sig.clone(), detail);
         if is_known_open(&sig) {
             if self.first_known.is_none() {
                 self.first_known = Some(v);
@@ -386,10 +401,10 @@ pub fn check(env: &mut Env, case: &Case) -> Verdict {
         Outcome::Sols(v) if v.len() == 1 => v[0].clone(),
         Outcome::Panic(m) => {
             let loc = m.split_whitespace().next().unwrap_or("?");
-            return Verdict::fail(format!("panic:{loc}"), format!("history {} panicked: {m}", hist_all()));
+            return vfail(format!("panic:{loc}"), format!("history {} panicked: {m}", hist_all()));
         }
         Outcome::Harness(m) => return Verdict::Discard(format!("harness:{}", m.chars().take(40).collect::<String>())),
-        other => return Verdict::fail("driver:unexpected", format!("c44_run gave {} for {}", other.short(), hist_all())),
+        other => return vfail("driver:unexpected", format!("c44_run gave {} for {}", other.short(), hist_all())),
     };
     let Some(results) = as_items(&out) else { return Verdict::Discard("harness:result-not-a-list".into()) };
     if results.len() != case.steps.len() + 1 {
@@ -400,17 +415,17 @@ pub fn check(env: &mut Env, case: &Case) -> Verdict {
         T::Cmp(f, a) if f == "e" && a.len() == 1 => pairs(&a[0]),
         _ => None,
     };
-    let Some(Ok(e0)) = e0 else { return Verdict::fail("enum-initial:undecodable", format!("initial enumeration: {}", results[0].text())) };
+    let Some(Ok(e0)) = e0 else { return vfail("enum-initial:undecodable", format!("initial enumeration: {}", results[0].text())) };
     let mut model: Model = BTreeMap::new();
     for (k, v) in &e0 {
         if model.insert(k.clone(), v.clone()).is_some() {
-            return Verdict::fail(format!("enum-initial:duplicate:{k}"), format!("flag {k} enumerated twice on a fresh machine"));
+            return vfail(format!("enum-initial:duplicate:{k}"), format!("flag {k} enumerated twice on a fresh machine"));
         }
     }
     for w in WRITABLE {
         match model.get(*w) {
             Some(v) if admissible(w, v) => {}
-            other => return Verdict::fail(format!("enum-initial:missing:{w}"), format!("fresh machine enumerates {w} as {:?}", other.map(|t| t.text()))),
+            other => return vfail(format!("enum-initial:missing:{w}"), format!("fresh machine enumerates {w} as {:?}", other.map(|t| t.text()))),
         }
     }
     let read_only: Vec<String> = model.keys().filter(|k| !writable(k)).cloned().collect();
@@ -449,7 +464,7 @@ pub fn check(env: &mut Env, case: &Case) -> Verdict {
                 let obs_err: Option<T> = match outcome {
                     T::Cmp(x, b) if x == "ex" && b.len() == 1 => match formal_of(&b[0]) {
                         Some(fm) => Some(fm),
-                        None => return Verdict::fail("set-non-iso-ball:", format!("{} threw {} (history: {})", show(st), b[0].text(), hist())),
+                        None => return vfail("set-non-iso-ball:", format!("{} threw {} (history: {})", show(st), b[0].text(), hist())),
                     },
                     _ => None,
                 };
@@ -600,7 +615,7 @@ pub fn check(env: &mut Env, case: &Case) -> Verdict {
                         }
                     }
                 }
-                _ => return Verdict::fail("enum:undecodable", format!("after {}: {}", hist(), e.text())),
+                _ => return vfail("enum:undecodable", format!("after {}: {}", hist(), e.text())),
             }
         }
         for (k, v) in &frozen {
